@@ -18,7 +18,7 @@ pub const FLOORS: &[&str] = &[
     "origin:default", "origin:other", "origin:ge8000", "image_straddles_8000", "break_or_orig_interleaved",
     "assembly_after_memory_was_modified", "label_like_register_with_digits", "break_table_row", "break_table_row_truncated",
     "break_table_row_multibyte", "break_table_row_without_statement", "image_crosses_fe00", "label_shaped_like_number_or_register",
-    "eval_of_a_line_with_its_label_in_front", "stmt:continued_on_the_next_line", "first_statement_at_byte_zero_without_operands", "label_in_front_of_break",
+    "eval_of_a_line_with_its_label_in_front", "stmt:continued_on_the_next_line", "first_statement_at_byte_zero_without_operands", "label_in_front_of_break", "label_offset_beyond_16_bits_refused",
 ];
 
 pub fn run(cfg: &Cfg, col: &mut Collector) {
@@ -140,6 +140,19 @@ fn one_case(seed: u64, i: u64) -> CaseOut {
         Goto(String, u16, i32),
         Print(String, u16, i32),
     }
+    // label + an offset beyond 16 bits: refused where the line is parsed (checked separately below, these lines
+    // have no prompt of their own)
+    let mut refused_lines: Vec<String> = Vec::new();
+    for (name, _) in img.labels.iter().take(3) {
+        if matches!(crate::refcmd::memory_location(name), Ok(crate::refcmd::RLoc::Label(n, 0)) if n == *name) {
+            let off = *rng.pick(&[32768u32, 40000, 50000, 65535, 65536, 100000]);
+            let line = format!("{} {}{}{}", rng.s(&["goto", "break add", "move"]), name, rng.s(&["+", "-"]), off);
+            let line = if line.starts_with("move") { format!("{} x1234", line) } else { line };
+            if crate::refcmd::parse(&line).is_err() {
+                refused_lines.push(line);
+            }
+        }
+    }
     let mut qs: Vec<Q> = Vec::new();
     for k in -2..n + 2 {
         let a = orig as i32 + k;
@@ -217,6 +230,11 @@ fn one_case(seed: u64, i: u64) -> CaseOut {
             Q::Print(token, _, _) => format!("{} {}", rng.s(&["print", "p"]), token),
         });
     }
+    let n_regular = lines.len();
+    for l in &refused_lines {
+        lines.push(l.clone());
+    }
+    lines.push("break list".into());
     lines.push("exit".into());
     let script = lines.join("\n");
     let sess = match run_session(&session_text, stack, &script, &[], 10_000, false) {
@@ -346,6 +364,23 @@ fn one_case(seed: u64, i: u64) -> CaseOut {
         }
     }
     let _ = prev_item;
+    if !refused_lines.is_empty() {
+        // the prompt before the first refused line and the one after the last: same PC, same breakpoints, same memory
+        let before = sess.snaps.iter().filter(|s| s.commands_read <= n_regular).last();
+        let after = sess.snaps.iter().find(|s| s.commands_read > n_regular + refused_lines.len() - 1);
+        if let (Some(b), Some(a)) = (before, after) {
+            out.class("label_offset_beyond_16_bits_refused");
+            if a.pc != b.pc || a.bps != b.bps || a.mem_diff != b.mem_diff {
+                out.violate(
+                    "C17/label-offset-beyond-16-bits",
+                    i,
+                    format!("after {:?} the PC is x{:04X} (was x{:04X}), breakpoints {:04X?} (were {:04X?}): an offset no 16-bit field holds names no location", refused_lines, a.pc, b.pc, a.bps, b.bps),
+                    detail(n_regular, String::new()),
+                );
+                return out;
+            }
+        }
+    }
     // ---- the breakpoint table. Only the decorated output mode has one (the minimal mode lists
     // addresses): a second session with breakpoints on a sample of addresses, then `break list`.
     if !cfg!(miri) {
